@@ -2,6 +2,7 @@ package transaction
 
 import (
 	"context"
+	"sync"
 
 	"github.com/glebziz/fs_db/internal/model"
 )
@@ -32,6 +33,12 @@ type UseCase struct {
 	txRepo  txRepository
 
 	idGen generator
+
+	// endM is held while a transaction is being ended, from its removal from
+	// the registry until its writes are published or discarded: a Commit or
+	// Rollback that finds the transaction already gone (another call is ending
+	// it) must not answer before that other call has taken effect.
+	endM sync.Mutex
 }
 
 func New(
